@@ -79,9 +79,8 @@ def cases(unit, rec, depths=(10,)):
     fam = families.get(name)
     reg = registry()
     L = fam.L[tier] - lite
-    for level, s in fam.states(tier, first):
-        if level > L:
-            break
+    for level, s, unique in fam.states(tier, first, L):
+        rec.mark("states", s, unique)
         for pre, suf in fam.wraps:
             data = pre + s + suf
             for depth in depths:
